@@ -128,12 +128,10 @@ def eval_adverb_each2(f, a, b, backend=None):
     if is_atom(a) and is_atom(b):
         return f(a,b)
     r = [f(x,y) for x,y in zip(a,b)]
-    try:
-        r = bknp.asarray(r)
-    except ValueError:
-        # results of different shapes: a ragged list, as every other adverb returns
-        return backend.kg_asarray(r) if backend is not None else bknp.asarray(r, dtype=object)
-    return ''.join(r) if r.dtype == '<U1' else r
+    if all(isinstance(x, str) and len(x) == 1 and not isinstance(x, KGSym) for x in r):
+        return ''.join(r)
+    # results of different shapes or kinds stay what they are (numpy.asarray would turn a number next to a string into text)
+    return backend.kg_asarray(r) if backend is not None else bknp.asarray(r, dtype=object)
 
 
 def eval_adverb_each_left(f, a, b, backend):
